@@ -337,6 +337,15 @@ def cleanWitness : List Choice :=
 example : (run Cfg.repaired cleanWitness).result = some .ok ∧ (run Cfg.repaired cleanWitness).waitDone = 1 ∧
     (run Cfg.repaired cleanWitness).guns.map (·.closes) = [1, 1, 1] ∧ (run Cfg.repaired cleanWitness).runC = true := by
   decide
+-- … and that final state is quiescent with the run context cancelled: the hypotheses of `C05_wait_returns` /
+-- `C05_guns_closed` are met, and `mu` bounds what could still have happened
+example : Quiescent Cfg.repaired (run Cfg.repaired cleanWitness) := by
+  intro c hm
+  cases c <;> first | exact False.elim hm | rfl | (simp [step, run, cleanWitness, init, mainReturn, cancelAll, handleRes, afterErr, checkAll, finish, Ret.isCtxError])
+example : mu (run Cfg.repaired cleanWitness) = 1 := by decide
+-- mid-run (two instances shooting, nothing returned yet) after the caller's cancel: 32 units of work are left
+example : (run Cfg.repaired [.warm (.ok true), .sched none, .startFirst (.ok true), .startTick, .extCancel]).runC = true ∧
+    mu (run Cfg.repaired [.warm (.ok true), .sched none, .startFirst (.ok true), .startTick, .extCancel]) = 32 := by decide
 -- cancel while running: the select returns the cancellation error
 example : (run Cfg.repaired [.warm (.ok true), .sched none, .startFirst (.ok true), .extCancel, .mainCancel]).result
     = some .ctx := by decide
